@@ -309,6 +309,26 @@ def oracle_euler(pp, torch, g, dname, x):
     return None
 
 
+def oracle_euler_batch(pp, torch, g, dname, xs, shp):
+    """X.euler() on a batch equals, item by item, X_i.euler() on the single elements (which oracle_euler judges)"""
+    G = getattr(pp, g + '_type')
+    Xb = pp.LieTensor(torch.tensor(xs, dtype=dt(torch, dname)).reshape(tuple(shp) + (len(xs[0]),)), ltype=G)
+    try:
+        eb = Xb.euler()
+    except Exception as ex:
+        return 'euler of a batch of shape %s raised %r' % (tuple(shp), ex)
+    if tuple(eb.shape) != tuple(shp) + (3,):
+        return 'euler of a batch of lshape %s returned shape %s' % (tuple(shp), tuple(eb.shape))
+    eb = eb.reshape(-1, 3)
+    for i, x in enumerate(xs):
+        ei = pp.LieTensor(torch.tensor(x, dtype=dt(torch, dname)), ltype=G).euler()
+        if not torch.allclose(eb[i], ei, rtol=0, atol=64 * feps(dname), equal_nan=True):
+            one = oracle_euler(pp, torch, g, dname, x)
+            return ('item %d of a batch of lshape %s (batch holds gimbal-locked and ordinary elements): euler gives %s inside the batch but %s for the single element x=%s%s'
+                    % (i, tuple(shp), eb[i].tolist(), ei.tolist(), x, '' if one else ' (the single-element result satisfies the round trip)'))
+    return None
+
+
 def oracle_reject(pp, torch, via, g, dname, M, expect_raise):
     """check=True: matrices beyond the tolerances raise ValueError, valid ones do not"""
     Mt = torch.tensor(M, dtype=dt(torch, dname))
@@ -1032,6 +1052,23 @@ def sweep_block(ctx, pp, torch):
         why = oracle_euler2SO3(pp, torch, dname, e)
         if why:
             ctx.violation(key_for(rec), why, rec)
+    # batches mixing ordinary and gimbal-locked elements: euler() of a batch is item by item what it is for single elements
+    # (so every ordinary item of any batch still satisfies the round trip checked above)
+    for j in range(ctx.scale(80, 800)):
+        dname = 'float64' if rng.random() < 0.6 else 'float32'
+        g = rng.choice(GROUPS)
+        kinds = ['gimbal'] + [rng.choice(['uniform', 'uniform', 'gimbal', 'gimbal-near', 'flag-boundary', 'axis', 'identity']) for _ in range(rng.randint(1, 6))]
+        rng.shuffle(kinds)
+        items = [make_X(pp, torch, g, gen_euler_quat(rng, k), gen_t(rng), gen_s(rng), dname) for k in kinds]
+        xs = [[float(v) for v in X.tensor().tolist()] for X in items]
+        B = len(items)
+        shp = rng.choice([(B,), (B, 1), (1, B)])
+        Xb = pp.LieTensor(torch.tensor(xs, dtype=dt(torch, dname)).reshape(shp + (len(xs[0]),)), ltype=getattr(pp, g + '_type'))
+        ctx.case(('euler-batch', g, dname, shp, tuple(map(tuple, xs))), nontrivial=True, branch='sweep:euler-batch')
+        rec = dict(kind='euler-batch', g=g, dtype=dname, xs=xs, shape=list(shp))
+        why = oracle_euler_batch(pp, torch, g, dname, xs, shp)
+        if why:
+            ctx.violation('euler:batch:%s:%s' % (g, dname), why, rec)
     # rejection clause on scaled variants: not (scaled) rotations raise ValueError with check=True
     for j in range(ctx.scale(400, 5000)):
         g = rng.choice(['Sim3', 'RxSO3', 'SE3', 'SO3'])
@@ -1097,6 +1134,8 @@ def replay(ctx, c):
         return oracle_roundtrip(pp, torch, c['via'], c['g'], c['dtype'], c['lay'], c['check'], c['q'], c['t'], c['s'], tuple(c.get('shape') or ()))
     if k == 'e2s':
         return oracle_euler2SO3(pp, torch, c['dtype'], c['e'])
+    if k == 'euler-batch':
+        return oracle_euler_batch(pp, torch, c['g'], c['dtype'], c['xs'], tuple(c['shape']))
     if k == 'euler':
         return oracle_euler(pp, torch, c['g'], c['dtype'], c['x'])
     if k == 'shape':
